@@ -4,7 +4,7 @@ C11 — `equal?` is structural, hashing agrees with it, collections behave as th
 Model M of `crates/steel-core/src/rvals/cycles.rs` (`RecursiveEqualityHandler`, `impl PartialEq for SteelVal`)
 and of `impl Hash for SteelVal` (`rvals.rs`), plus the specification S.
 
-* Values are *graphs*: a heap of nodes with identities (`Id` = index into the node list), so that the
+* Values are *graphs*: a heap of nodes with identities (`Nat` = index into the node list), so that the
   same Rust object can be reachable several times (sharing).  A definition may only mention earlier
   ids (`WF`), hence graphs are acyclic.
 * `loop`/`eqImpl` transcribe the worklist of `RecursiveEqualityHandler::visit`: two stacks (the
@@ -22,7 +22,7 @@ and of `impl Hash for SteelVal` (`rvals.rs`), plus the specification S.
 -/
 namespace SteelVerif.C11
 
-abbrev Id := Nat
+-- node identities are indices into the node list (plain `Nat`)
 
 /-! ## Leaves -/
 
@@ -98,21 +98,21 @@ def leafEqWork (c : Cfg) : Leaf → Leaf → Bool
 
 inductive Node
   | leaf (l : Leaf)
-  | list (xs : List Id)                 -- ListV built by `list` (a fresh object); `[]` is the empty list
-  | pair (a b : Id)                     -- Pair (improper)
-  | vec (xs : List Id)                  -- VectorV (immutable)
-  | mvec (xs : List Id)                 -- MutableVector
-  | struct (tag : Nat) (xs : List Id)   -- CustomStruct; `tag` identifies the type descriptor
-  | box (a : Id)                        -- Boxed / HeapAllocated
-  | map (es : List (Id × Id))           -- HashMapV, entries in the iteration order of the object
-  | set (xs : List Id)                  -- HashSetV, members in the iteration order of the object
+  | list (xs : List Nat)                 -- ListV built by `list` (a fresh object); `[]` is the empty list
+  | pair (a b : Nat)                     -- Pair (improper)
+  | vec (xs : List Nat)                  -- VectorV (immutable)
+  | mvec (xs : List Nat)                 -- MutableVector
+  | struct (tag : Nat) (xs : List Nat)   -- CustomStruct; `tag` identifies the type descriptor
+  | box (a : Nat)                        -- Boxed / HeapAllocated
+  | map (es : List (Nat × Nat))           -- HashMapV, entries in the iteration order of the object
+  | set (xs : List Nat)                  -- HashSetV, members in the iteration order of the object
   deriving DecidableEq, Repr, Inhabited
 
 abbrev Graph := List Node
 
-def Graph.node (g : Graph) (i : Id) : Node := g.getD i (.leaf .void)
+def Graph.node (g : Graph) (i : Nat) : Node := g.getD i (.leaf .void)
 
-def children : Node → List Id
+def children : Node → List Nat
   | .leaf _ => []
   | .list xs => xs
   | .pair a b => [a, b]
@@ -132,16 +132,16 @@ def WF (g : Graph) : Prop := wfB g = true
 instance (g : Graph) : Decidable (WF g) := inferInstanceAs (Decidable (_ = _))
 
 /-- Size of the unfolding (number of nodes of the tree). -/
-def sizeF (g : Graph) : Nat → Id → Nat
+def sizeF (g : Graph) : Nat → Nat → Nat
   | 0, _ => 1
   | f + 1, i => 1 + ((children (g.node i)).map (sizeF g f)).sum
 
-def size (g : Graph) (i : Id) : Nat := sizeF g g.length i
+def size (g : Graph) (i : Nat) : Nat := sizeF g g.length i
 
 /-! ## Relations on unfoldings: the specification and the kernel of the hash function -/
 
 /-- same length and pointwise related -/
-def all2 (r : Id → Id → Bool) : List Id → List Id → Bool
+def all2 (r : Nat → Nat → Bool) : List Nat → List Nat → Bool
   | [], [] => true
   | x :: xs, y :: ys => r x y && all2 r xs ys
   | _, _ => false
@@ -157,7 +157,7 @@ structure RelCfg where
   mixVec : Bool
   mode : MapMode
 
-def mapRel (m : MapMode) (r : Id → Id → Bool) (es fs : List (Id × Id)) : Bool :=
+def mapRel (m : MapMode) (r : Nat → Nat → Bool) (es fs : List (Nat × Nat)) : Bool :=
   match m with
   | .lookup => es.length == fs.length && es.all fun e =>
       match fs.find? (fun e' => r e.1 e'.1) with
@@ -166,12 +166,12 @@ def mapRel (m : MapMode) (r : Id → Id → Bool) (es fs : List (Id × Id)) : Bo
   | .exists_ => es.length == fs.length && es.all fun e => fs.any fun e' => r e.1 e'.1 && r e.2 e'.2
   | .ordered => all2 r (es.map Prod.fst) (fs.map Prod.fst) && all2 r (es.map Prod.snd) (fs.map Prod.snd)
 
-def setRel (m : MapMode) (r : Id → Id → Bool) (xs ys : List Id) : Bool :=
+def setRel (m : MapMode) (r : Nat → Nat → Bool) (xs ys : List Nat) : Bool :=
   match m with
   | .ordered => all2 r xs ys
   | _ => xs.length == ys.length && xs.all fun x => ys.any (r x)
 
-def relBody (rc : RelCfg) (r : Id → Id → Bool) : Node → Node → Bool
+def relBody (rc : RelCfg) (r : Nat → Nat → Bool) : Node → Node → Bool
   | .leaf x, .leaf y => rc.leaf x y
   | .list xs, .list ys => all2 r xs ys
   | .pair a b, .pair c d => r a c && r b d
@@ -185,17 +185,17 @@ def relBody (rc : RelCfg) (r : Id → Id → Bool) : Node → Node → Bool
   | .set xs, .set ys => setRel rc.mode r xs ys
   | _, _ => false
 
-def relF (rc : RelCfg) (g : Graph) : Nat → Id → Id → Bool
+def relF (rc : RelCfg) (g : Graph) : Nat → Nat → Nat → Bool
   | 0 => fun _ _ => false
   | f + 1 => fun a b => relBody rc (relF rc g f) (g.node a) (g.node b)
 
-def rel (rc : RelCfg) (g : Graph) (a b : Id) : Bool := relF rc g g.length a b
+def rel (rc : RelCfg) (g : Graph) (a b : Nat) : Bool := relF rc g g.length a b
 
 /-- S: a mutable and an immutable vector with equal elements are equal; hash maps are finite maps. -/
 def specCfg : RelCfg := { leaf := leafEqSpec, mixVec := true, mode := .lookup }
 
 /-- **S** — equality of the unfoldings. -/
-def eqSpec (g : Graph) (a b : Id) : Bool := rel specCfg g a b
+def eqSpec (g : Graph) (a b : Nat) : Bool := rel specCfg g a b
 
 /-- Which leaves feed the hasher the same bytes.  `NumV` hashes its printed form: all NaNs print alike,
     every other float prints differently from every other one; `"0"` vs `"-0"` unless unified. -/
@@ -208,17 +208,17 @@ def hashCfg (c : Cfg) : RelCfg :=
     mode := if c.hashUnordered then .exists_ else .ordered }
 
 /-- `hashEq c g a b`: `a` and `b` have the same hash (up to accidental collisions). -/
-def hashEq (c : Cfg) (g : Graph) (a b : Id) : Bool := rel (hashCfg c) g a b
+def hashEq (c : Cfg) (g : Graph) (a b : Nat) : Bool := rel (hashCfg c) g a b
 
 /-! ## The worklist -/
 
 inductive Key
-  | one (x : Id)       -- the identity of one value (legacy)
-  | two (l r : Id)     -- a (left, right) pair
+  | one (x : Nat)       -- the identity of one value (legacy)
+  | two (l r : Nat)     -- a (left, right) pair
   deriving DecidableEq, Repr
 
 /-- `self.should_visit(..)` as it is called by the arms: returns (visit?, visited'). -/
-def visit (c : Cfg) (vis : List Key) (l r : Id) : Bool × List Key :=
+def visit (c : Cfg) (vis : List Key) (l r : Nat) : Bool × List Key :=
   if c.pairKeyed then
     if vis.contains (.two l r) then (false, vis) else (true, .two l r :: vis)
   else
@@ -229,11 +229,11 @@ def visit (c : Cfg) (vis : List Key) (l r : Id) : Bool × List Key :=
 
 inductive Out
   | ret (b : Bool)                               -- `return b`
-  | cont (pl pr : List Id) (vis : List Key)      -- push `pl` left, `pr` right (in this order); `continue`
+  | cont (pl pr : List Nat) (vis : List Key)      -- push `pl` left, `pr` right (in this order); `continue`
   deriving Repr
 
 /-- `for (key, value) in l.iter() { if let Some(rv) = r.get(key) { push value / rv } else { return false } }` -/
-def lookupAll (keyEq : Id → Id → Bool) (fs : List (Id × Id)) : List (Id × Id) → Option (List Id × List Id)
+def lookupAll (keyEq : Nat → Nat → Bool) (fs : List (Nat × Nat)) : List (Nat × Nat) → Option (List Nat × List Nat)
   | [] => some ([], [])
   | e :: es =>
       match fs.find? (fun e' => keyEq e.1 e'.1) with
@@ -245,7 +245,7 @@ def lookupAll (keyEq : Id → Id → Bool) (fs : List (Id × Id)) : List (Id × 
 
 /-- One iteration of `visit`'s `loop` body after the two pops: the `match (left, right)`.
     `keyEq k k'` is what `HashMap::get`/`HashSet::contains` do with a stored key: same hash and `==`. -/
-def arm (c : Cfg) (g : Graph) (keyEq : Id → Id → Bool) (l r : Id) (vis : List Key) : Out :=
+def arm (c : Cfg) (g : Graph) (keyEq : Nat → Nat → Bool) (l r : Nat) (vis : List Key) : Out :=
   match g.node l, g.node r with
   | .list xs, .list ys =>
       -- `l.ptr_eq(&r) || l.storage_ptr_eq(&r)`; all empty lists are one object
@@ -308,14 +308,14 @@ def arm (c : Cfg) (g : Graph) (keyEq : Id → Id → Bool) (l r : Id) (vis : Lis
 
 /-- The fast path of `impl PartialEq for SteelVal` (same-kind leaves are compared directly);
     everything else goes to the worklist. -/
-def topEq (g : Graph) (work : Id → Id → Bool) (a b : Id) : Bool :=
+def topEq (g : Graph) (work : Nat → Nat → Bool) (a b : Nat) : Bool :=
   match g.node a, g.node b with
   | .leaf x, .leaf y => leafEqSpec x y
   | _, _ => work a b
 
 /-- `RecursiveEqualityHandler::visit`.  `ls`/`rs` are the two stacks (head = top).  `none`-like
     outcomes: fuel exhausted ⇒ `false` (never happens with the fuel `eqImpl` supplies). -/
-def loop (c : Cfg) (g : Graph) : Nat → List Id → List Id → List Key → Bool
+def loop (c : Cfg) (g : Graph) : Nat → List Nat → List Nat → List Key → Bool
   | _, [], [], _ => true                       -- (None, None) => return true
   | 0, _, _, _ => false
   | f + 1, l :: ls, r :: rs, vis =>
@@ -328,11 +328,11 @@ def loop (c : Cfg) (g : Graph) : Nat → List Id → List Id → List Key → Bo
   | _, _, _, _ => false                        -- (Some, None) | (None, Some) => return false
 
 /-- **M** — `left == right` for `SteelVal`s, i.e. `equal?`. -/
-def eqImpl (c : Cfg) (g : Graph) (a b : Id) : Bool :=
+def eqImpl (c : Cfg) (g : Graph) (a b : Nat) : Bool :=
   topEq g (fun a b => loop c g (size g a + size g b) [a] [b] []) a b
 
 /-- `HashMap::get` / `contains` with a query key `k` against a stored key `k'`. -/
-def keyEqImpl (c : Cfg) (g : Graph) (k k' : Id) : Bool := hashEq c g k k' && eqImpl c g k k'
+def keyEqImpl (c : Cfg) (g : Graph) (k k' : Nat) : Bool := hashEq c g k k' && eqImpl c g k k'
 
 /-! ## Guards of the theorems -/
 
@@ -354,14 +354,14 @@ def keysDistinctB (g : Graph) : Bool :=
 
 /-- Class predicate of finding K11a (python: `shared_twice`): the list of container nodes met when
     both values are traversed as trees, with repetitions. -/
-def reachF (g : Graph) : Nat → Id → List Id
+def reachF (g : Graph) : Nat → Nat → List Nat
   | 0, _ => []
   | f + 1, i =>
       match g.node i with
       | .leaf _ => []
       | n => i :: (children n).flatMap (reachF g f)
 
-def noSharingB (g : Graph) (a b : Id) : Bool :=
+def noSharingB (g : Graph) (a b : Nat) : Bool :=
   let xs := reachF g g.length a ++ reachF g g.length b
   xs.all fun x => xs.count x == 1
 
